@@ -462,6 +462,12 @@ class SqlImpl(TableImpl):
                 for name, uid, val in zip(nd.names, nd.uuids, nd.values, strict=True)
             }
             query.group_by.extend(col._uuid for col in query.partition_by if not types.is_const(col.dtype()))
+            if query.partition_by and not query.group_by:
+                # All grouping columns are constants, which are kept out of GROUP BY.
+                # There still must be no row (instead of one) if the input is empty.
+                non_empty = ColFn(ops.count_star) > 0
+                non_empty.ftype(agg_is_window=False)
+                query.having.append(non_empty)
             query.select = [
                 col._uuid for col in query.partition_by if sqa_expr[col._uuid].name not in set(nd.names)
             ] + nd.uuids
